@@ -38,6 +38,8 @@ real observations (no model involved).
 """
 from __future__ import annotations
 
+import os
+import sys
 import asyncio
 import json
 import re
@@ -505,6 +507,8 @@ def run_model(case, real: Real, driver, fix=(1, 1, 1)):
         if not nodrain and line.split(' ', 1)[0] not in ('begin', 'drain', 'observe'):
             drain_model()
         rep = driver.ask(line)
+        if os.environ.get('VERIF_C12_DEBUG'):
+            print('MODEL', line[:200], '->', rep[:200], file=sys.stderr)
         if not rep.startswith('ok'):
             raise AssertionError(f'model rejected {line!r}: {rep}')
         return rep
